@@ -178,3 +178,101 @@ def check_two_ids(ci: int) -> bool:
     if got != exp:
         LAST_DIFF = ('links', sorted(got ^ exp), (a1, c1, a2, c2, bref, cref, order)); return False
     return True
+
+
+# ---- special schemas: reflexive association with phrases (incl. self-reference), non-reflexive association
+# with different phrases on its ends, association whose key attributes are spelled in another letter case
+# than the class declares.  Loader vs nested-loop join, and API route (new with referential values,
+# referred rows first) vs loader.
+SPECIAL = PARAMS.get('special', 'refl')
+SP_CASES = list(itertools.product(range(4), repeat=3))
+NSP = len(SP_CASES)
+
+
+def sp_text(prev):
+    if SPECIAL == 'refl':
+        s = ("CREATE TABLE C (Id UNIQUE_ID, Prev_Id UNIQUE_ID, Tag INTEGER);\n"
+             "CREATE ROP REF_ID R2 FROM 1C C (Prev_Id) PHRASE 'precedes' TO 1C C (Id) PHRASE 'succeeds';\n")
+        for n, p in enumerate(prev):
+            s += 'INSERT INTO C VALUES (%d, %d, %d);\n' % (n + 1, p, n)
+        return s
+    rop = {'phr': "CREATE ROP REF_ID R1 FROM MC B (A_Id) PHRASE 'is held by' TO 1C A (Id) PHRASE 'holds';\n",
+           'case': "CREATE ROP REF_ID R1 FROM MC B (a_id) TO 1C A (ID);\n"}[SPECIAL]
+    s = "CREATE TABLE A (Id UNIQUE_ID, Tag INTEGER);\nCREATE TABLE B (Tag INTEGER, A_Id UNIQUE_ID);\n" + rop
+    for n in range(3):
+        s += 'INSERT INTO A VALUES (%d, %d);\n' % (n + 1, n)
+    for n, p in enumerate(prev):
+        s += 'INSERT INTO B VALUES (%d, %d);\n' % (n, p)
+    return s
+
+
+def sp_links(m):
+    """(referring tag, referred tag) pairs, read by navigating both directions"""
+    out = set()
+    if SPECIAL == 'refl':
+        for c in m.select_many('C'):
+            for d in xtuml.navigate_many(c).C[2, 'precedes']():
+                out.add(('fwd', c.Tag, d.Tag))
+            for d in xtuml.navigate_many(c).C[2, 'succeeds']():
+                out.add(('bwd', d.Tag, c.Tag))
+    else:
+        ph1, ph2 = ('is held by', 'holds') if SPECIAL == 'phr' else ('', '')
+        for b in m.select_many('B'):
+            for a in xtuml.navigate_many(b).A[1, ph1]():
+                out.add(('fwd', b.Tag, a.Tag))
+        for a in m.select_many('A'):
+            for b in xtuml.navigate_many(a).B[1, ph2]():
+                out.add(('bwd', b.Tag, a.Tag))
+    return out
+
+
+def check_special(ci: int) -> bool:
+    """
+    pre: 0 <= ci < NSP
+    post: POST(_)
+    """
+    global LAST_DIFF, LOADER
+    prev = SP_CASES[cs(ci, 0, NSP - 1)]
+    with notrace():
+        if LOADER is None:
+            LOADER = xtuml.ModelLoader()
+        LOADER.statements = []
+        LOADER.input(sp_text(prev))
+    m = LOADER.build_metamodel()
+    case('special', SPECIAL, prev)
+    exp = set()
+    for n, p in enumerate(prev):
+        if 1 <= p <= 3:
+            exp.add(('fwd', n, p - 1)); exp.add(('bwd', n, p - 1))
+    with notrace():
+        got = sp_links(m)
+    if got != exp:
+        LAST_DIFF = ('loaded links differ from the key join', SPECIAL, prev, sorted(got ^ exp)); return False
+    # API route: same rows through new(), referred rows first (reflexive: only references to earlier rows or none)
+    if SPECIAL == 'refl' and (any(p > n for n, p in enumerate(prev)) or
+                              any(prev.count(p) > 1 for p in prev if 1 <= p <= 3)):
+        return True      # API route only: references to earlier rows, within the 1:1 multiplicity (new() checks it, the loader does not)
+    with notrace():
+        l2 = xtuml.ModelLoader()
+        l2.input(''.join(ln + '\n' for ln in sp_text(prev).split('\n') if ln.startswith('CREATE')))
+        m2 = l2.build_metamodel()
+    try:
+        if SPECIAL == 'refl':
+            for n, p in enumerate(prev):
+                m2.new('C', Id=n + 1, Prev_Id=p, Tag=n)
+        else:
+            for n in range(3):
+                m2.new('A', Id=n + 1, Tag=n)
+            for n, p in enumerate(prev):
+                m2.new('B', Tag=n, A_Id=p)
+    except xtuml.UnknownLinkException:
+        if SPECIAL == 'phr' and any(1 <= p <= 3 for p in prev) and known('C03/api-phrased-unknownlink'):
+            return None
+        raise
+    with notrace():
+        got2 = sp_links(m2)
+    if got2 != exp:
+        if SPECIAL == 'refl' and got2 == {(d, b, a) for (d, a, b) in exp} and known('C03/api-reflexive-direction'):
+            return None
+        LAST_DIFF = ('links of rows created through new() differ from the loaded ones', SPECIAL, prev, sorted(got2 ^ exp)); return False
+    return True
